@@ -316,8 +316,9 @@ type goGen struct {
 	params  map[string]rparam
 	results []string // names of results (result0..)
 	named   map[string]int
-	err     error
-	intMode bool
+	err      error
+	intMode  bool
+	verbatim bool // inside an inlined spec function: parameters are closure variables
 }
 
 func (gg *goGen) fail(f string, a ...any) string {
@@ -404,6 +405,9 @@ func (gg *goGen) gen(e *Expr, bound map[string]bool, old bool) string {
 		}
 		if bound[e.Name] {
 			return e.Name
+		}
+		if p, ok := gg.params[e.Name]; ok && gg.verbatim {
+			return wrapInt(e.Name, p.kind == "int")
 		}
 		if p, ok := gg.params[e.Name]; ok {
 			n := p.name
@@ -507,6 +511,9 @@ func (gg *goGen) gen(e *Expr, bound map[string]bool, old bool) string {
 					}
 					sub.params[p.Name] = rparam{name: p.Name, kind: k, goType: p.Type, elem: sliceElemOf(t)}
 				}
+				for i := range sf.Params {
+					_ = i
+				}
 				body := sub.genSpecBody(sf.Body)
 				if sub.err != nil {
 					return gg.fail("%v", sub.err)
@@ -514,12 +521,28 @@ func (gg *goGen) gen(e *Expr, bound map[string]bool, old bool) string {
 				return fmt.Sprintf("func(%s) %s { return %s }(%s)", strings.Join(ps, ", "), sf.Ret, body, strings.Join(as, ", "))
 			}
 			// conversion
-			if t := gg.x.resolveType(f.Name, &specEnv{pkg: gg.x.fn.Pkg.Pkg}); t != nil && len(e.Args) == 2 {
+			if t := gg.x.resolveType(f.Name, &specEnv{pkg: gg.x.g.typesPkg(gg.x.c.Pkg)}); t != nil && len(e.Args) == 2 {
 				if gg.intMode {
 					return "int(" + f.Name + "(" + gg.rawArg(e.Args[1], bound, old) + "))"
 				}
 				return f.Name + "(" + gg.gen(e.Args[1], bound, old) + ")"
 			}
+		}
+		if f.Op == "id" {
+			if _, isParam := gg.params[f.Name]; isParam && gg.verbatim {
+				var as []string
+				for _, a := range e.Args[1:] {
+					as = append(as, gg.rawArg(a, bound, old))
+				}
+				return "int(" + f.Name + "(" + strings.Join(as, ", ") + "))"
+			}
+		}
+		if f.Op == "field" && gg.verbatim {
+			var as []string
+			for _, a := range e.Args[1:] {
+				as = append(as, gg.rawArg(a, bound, old))
+			}
+			return gg.gen(f.Args[0], bound, old) + "." + f.Name + "(" + strings.Join(as, ", ") + ")"
 		}
 		return gg.fail("call %s is not executable", e)
 	}
@@ -545,115 +568,10 @@ func sliceElemOf(t string) types.Type {
 }
 
 // genSpecBody translates the body of an inlined spec function: its parameters
-// are plain Go variables of the closure.
+// are plain Go variables of the closure (emitted verbatim).
 func (gg *goGen) genSpecBody(e *Expr) string {
-	for n, p := range gg.params {
-		if p.kind == "int" {
-			p.kind = "vint"
-		} else {
-			p.kind = "v"
-		}
-		gg.params[n] = p
-	}
-	return gg.genV(e, map[string]bool{})
-}
-
-// genV: translation inside an inlined spec function body.
-func (gg *goGen) genV(e *Expr, bound map[string]bool) string {
-	if e.Op == "id" {
-		if p, ok := gg.params[e.Name]; ok && !bound[e.Name] {
-			if p.kind == "vint" && gg.intMode {
-				return "int(" + e.Name + ")"
-			}
-			return e.Name
-		}
-	}
-	if e.Op == "index" {
-		s := gg.genV(e.Args[0], bound)
-		i := gg.genV(e.Args[1], bound)
-		isI := false
-		if e.Args[0].Op == "id" {
-			if p, ok := gg.params[e.Args[0].Name]; ok && p.elem != nil {
-				_, isI = isInt(p.elem)
-			}
-		}
-		if gg.intMode && isI {
-			return "int(" + s + "[" + i + "])"
-		}
-		return s + "[" + i + "]"
-	}
-	switch e.Op {
-	case "num":
-		return e.Num
-	case "id":
-		return e.Name
-	case "old":
-		return gg.genV(e.Args[0], bound)
-	case "un":
-		return "(" + e.Name + gg.genV(e.Args[0], bound) + ")"
-	case "bin":
-		a, b := gg.genV(e.Args[0], bound), gg.genV(e.Args[1], bound)
-		switch e.Name {
-		case "==>":
-			return "(!(" + a + ") || (" + b + "))"
-		case "<==>":
-			return "((" + a + ") == (" + b + "))"
-		}
-		return "(" + a + " " + e.Name + " " + b + ")"
-	case "cond":
-		return fmt.Sprintf("ite(%s, %s, %s)", gg.genV(e.Args[0], bound), gg.genV(e.Args[1], bound), gg.genV(e.Args[2], bound))
-	case "slice":
-		s := gg.genV(e.Args[0], bound) + "["
-		if e.Args[1] != nil {
-			s += gg.genV(e.Args[1], bound)
-		}
-		s += ":"
-		if e.Args[2] != nil {
-			s += gg.genV(e.Args[2], bound)
-		}
-		return s + "]"
-	case "forall", "exists":
-		if len(e.Args) != 3 {
-			return gg.fail("unbounded quantifier is not executable")
-		}
-		nb := map[string]bool{}
-		for k := range bound {
-			nb[k] = true
-		}
-		nb[e.Name] = true
-		lo, hi := gg.genV(e.Args[0], bound), gg.genV(e.Args[1], bound)
-		body := gg.genV(e.Args[2], nb)
-		if e.Op == "forall" {
-			return fmt.Sprintf("func() bool { for %s := int(%s); %s < int(%s); %s++ { if !(%s) { return false } }; return true }()", e.Name, lo, e.Name, hi, e.Name, body)
-		}
-		return fmt.Sprintf("func() bool { for %s := int(%s); %s < int(%s); %s++ { if %s { return true } }; return false }()", e.Name, lo, e.Name, hi, e.Name, body)
-	case "call":
-		f := e.Args[0]
-		if f.Op == "id" {
-			switch f.Name {
-			case "len", "cap":
-				return "int(" + f.Name + "(" + gg.genV(e.Args[1], bound) + "))"
-			case "min", "max":
-				return fmt.Sprintf("%s(%s, %s)", f.Name, gg.genV(e.Args[1], bound), gg.genV(e.Args[2], bound))
-			}
-			if _, isParam := gg.params[f.Name]; isParam {
-				var as []string
-				for _, a := range e.Args[1:] {
-					as = append(as, gg.genV(a, bound))
-				}
-				return "int(" + f.Name + "(" + strings.Join(as, ", ") + "))"
-			}
-		}
-		if f.Op == "field" {
-			var as []string
-			for _, a := range e.Args[1:] {
-				as = append(as, gg.genV(a, bound))
-			}
-			return gg.genV(f.Args[0], bound) + "." + f.Name + "(" + strings.Join(as, ", ") + ")"
-		}
-		return gg.fail("call %s inside a spec function is not executable", e)
-	}
-	return gg.fail("expression %s is not executable", e)
+	gg.verbatim = true
+	return gg.gen(e, map[string]bool{}, false)
 }
 
 // rawArg: an argument passed to an inlined spec function keeps its Go type
@@ -734,18 +652,31 @@ func (g *Gen) replayOnRealCode(o *Oblig, work, repo, verif string) map[string]an
 	for _, cl := range x.c.Requires {
 		reqs = append(reqs, gg.gen(cl.E, map[string]bool{}, false))
 	}
-	var labels []string
+	if gg.err != nil {
+		return map[string]any{"replay_skipped": "precondition is not executable: " + gg.err.Error()}
+	}
+	var labels, skipped []string
 	for k, cl := range x.c.Ensures {
-		enss = append(enss, gg.gen(cl.E, map[string]bool{}, false))
+		gg.err = nil
+		g := gg.gen(cl.E, map[string]bool{}, false)
+		if gg.err != nil {
+			skipped = append(skipped, clauseLabel(cl, k)+" ("+gg.err.Error()+")")
+			continue
+		}
+		enss = append(enss, g)
 		labels = append(labels, clauseLabel(cl, k))
 	}
-	if gg.err != nil {
-		return map[string]any{"replay_skipped": "contract is not executable: " + gg.err.Error()}
-	}
-	lits, modelText, err := x.modelInputs(o, ps, work)
-	modelNote := ""
-	if err != nil {
-		modelNote = err.Error()
+	gg.err = nil
+	var lits map[string]string
+	var modelText, modelNote string
+	if o.Status == "failed" {
+		var err error
+		lits, modelText, err = x.modelInputs(o, ps, work)
+		if err != nil {
+			modelNote = err.Error()
+		}
+	} else {
+		modelNote = "no solver decided the obligation, so there is no model; the executable contract is run over the small-scope enumeration only"
 	}
 	pkgT := x.fn.Pkg
 	if pkgT == nil && x.fn.Origin() != nil {
@@ -774,7 +705,8 @@ func (g *Gen) replayOnRealCode(o *Oblig, work, repo, verif string) map[string]an
 	cmd.Env = append(os.Environ(), "GOFLAGS=-mod=mod", "GOPROXY=off", "GOTOOLCHAIN=auto")
 	out, _ := cmd.CombinedOutput()
 	text := string(out)
-	r := map[string]any{"replay_test": testFile, "replay_cmd": cmdline, "replay_output": truncate(text, 6000), "model": modelText, "model_inputs": lits}
+	_ = skipped
+	r := map[string]any{"ensures_not_executable": skipped, "replay_test": testFile, "replay_cmd": cmdline, "replay_output": truncate(text, 6000), "model": modelText, "model_inputs": lits}
 	if modelNote != "" {
 		r["model_note"] = modelNote
 	}
@@ -840,7 +772,11 @@ func genReplayTest(x *fx, ps []rparam, lits map[string]string, reqs, enss, label
 	for _, p := range ps {
 		args = append(args, p.name)
 	}
-	call := fname + "(" + strings.Join(args, ", ") + ")"
+	callArgs := append([]string{}, args...)
+	if x.fn.Signature.Variadic() && len(callArgs) > 0 {
+		callArgs[len(callArgs)-1] += "..."
+	}
+	call := fname + "(" + strings.Join(callArgs, ", ") + ")"
 	if len(lhs) > 0 {
 		call = strings.Join(lhs, ", ") + " = " + call
 	}
